@@ -10,6 +10,7 @@ import Hive.Stack
 import Hive.Ledger
 import Hive.MonitorTimed
 import Hive.Shift
+import Hive.Cycle
 
 open Lean Hive
 
@@ -195,6 +196,25 @@ def handleShift (st : DState) (j : Json) : Except String Json := do
     if a then none else some s!"C20/dispatch-off-shift| at time {t} the dispatcher assigned a request to vehicle {v} whose driver is off shift"
   pure (Json.mkObj [("diff", strs (diffs.take 12)), ("mon", strs (mon.take 12))])
 
+/-- C15 whole-run record: clocks after co-simulation calls, steps taken by the runner -/
+def handleCosim (j : Json) : Except String Json := do
+  let start : Int ← getField j "start"
+  let stop : Int ← getField j "stop"
+  let dt : Nat ← getField j "dt"
+  let clock : List (Nat × Int) ← getField j "clock"
+  let single : Int ← getField j "singleSteps"
+  let final : Int ← getField j "runnerFinal"
+  let m := Cycle.runnerSteps start stop dt
+  let mon : List String :=
+    (clock.filterMap fun (k, t) =>
+      if t == start + (k : Int) * (dt : Int) then none
+      else some s!"C15/clock| after {k} steps the clock shows {t}, expected {start + (k : Int) * (dt : Int)}") ++
+    (if single < 0 || single == (m : Int) then [] else
+      [s!"C15/runner-steps| repeated LocalSimulationRunner.step advanced {single} steps before refusing; the steps beginning before the end time are {m}"]) ++
+    (if final < 0 || final == start + (m : Int) * (dt : Int) then [] else
+      [s!"C15/runner-interval| LocalSimulationRunner.run ended at {final}; {m} steps from {start} end at {start + (m : Int) * (dt : Int)}"])
+  pure (Json.mkObj [("diff", strs []), ("mon", strs mon)])
+
 /-- function-level record: one mechatronics operation -/
 def handleMech (j : Json) : Except String Json := do
   let m : Mech ← getField j "mech"
@@ -305,6 +325,10 @@ def handle (st : DState) (line : String) : DState × Json :=
       | .error e => (st, withId (Json.mkObj [("error", Json.str e)]))
     | "shift" =>
       match handleShift st j with
+      | .ok r => (st, withId r)
+      | .error e => (st, withId (Json.mkObj [("error", Json.str e)]))
+    | "cosim" =>
+      match handleCosim j with
       | .ok r => (st, withId r)
       | .error e => (st, withId (Json.mkObj [("error", Json.str e)]))
     | "mech" =>
